@@ -233,7 +233,7 @@ fn check_codes(local: &mut Local) {
 }
 
 fn records() -> Vec<Tags> {
-    // 9 records over keys ⊆ {a,b,c}
+    // 11 records: keys ⊆ {a,b,c} plus mixed-case / digit / underscore names
     vec![
         vec![],
         mk_tags(&[("a", V::num(1.0))]),
@@ -244,6 +244,9 @@ fn records() -> Vec<Tags> {
         mk_tags(&[("b", V::Marker), ("c", V::num(3.0))]),
         mk_tags(&[("a", V::num(1.0)), ("b", V::num(2.0)), ("c", V::num(3.0))]),
         mk_tags(&[("c", V::List(vec![V::num(1.0)]))]),
+        // names whose byte order and case-insensitive order differ
+        mk_tags(&[("curVal", V::num(1.0)), ("current", V::num(2.0)), ("aC", V::Marker), ("ab", V::Marker)]),
+        mk_tags(&[("zZ", V::Marker), ("za", V::Marker), ("a_", V::Marker), ("a1", V::Marker), ("aA", V::Marker)]),
     ]
 }
 
